@@ -32,7 +32,7 @@ COQ_DEPS = ["Common/ListX.v", "Common/ObsHash.v", "Generated/Tables.v", "Model/R
 COQ_IMPORTS = "From Mesa Require Import Model.Rng."
 COQ_CASE_TYPE = "case"
 COQ_RUN = "run_case"
-TABLE_CONSTRUCTS = []
+TABLE_CONSTRUCTS = ["mte_choice_sorted", "global_rng_sites"]
 ENUM_ALWAYS = False
 REPO = os.environ.get("VERIF_REPO", "/repo")
 
@@ -1244,7 +1244,7 @@ def run_world_case(case):
             fail(f"C01/world/{k}/unexpected-exception", i, f"{op} raised {type(e).__name__}: {e}  {traceback.format_exc()[-400:]}")
         if _global_state() != g0:
             fail(f"C01/{k}/global-generator-touched", i, f"{op}: random.getstate() / np.random.get_state() changed during the call")
-    world = {"agents": init_agents, "next": max([a[0] for a in init_agents] + [len(case["agents"])]) + 1 if False else len(case["agents"]) + 1,
+    world = {"agents": init_agents, "next": len(case["agents"]) + 1,
              "cells": init_cells, "conn": conn, "lgrid": init_lgrid, "cutoff": cutoff}
     return {"obs": obs, "failures": failures, "ops_for_model": {"ops": ops_m, "world": world}}
 
@@ -1456,7 +1456,7 @@ def gen_cases(rng, tier):
     for s in range(0, len(ejobs), 3):
         cases.append({"kind": "env", "hashseeds": hashseeds, "priors": True, "jobs": ejobs[s:s + 3]})
     # (i) API scripts
-    nscripts = 64 if not thorough else 600
+    nscripts = 64 if not thorough else 800
     per = 16 if not thorough else 40
     specs = [_script_spec(rng) for _ in range(nscripts)]
     for s in range(0, nscripts, per):
@@ -1476,7 +1476,7 @@ def gen_cases(rng, tier):
                       "jobs": [{"kind": "batch", "model": name, "seeds": sds, "iterations": 2, "steps": 4, "procs": p}
                               for p in ([1, 2] if not thorough else [1, 2, 3])]})
     # model-tied worlds
-    nw = 240 if not thorough else 4000
+    nw = 240 if not thorough else 6000
     worlds = [_gen_world(rng, big=(i % 8 == 7)) for i in range(nw)]
     # interleave: the framework hands consecutive histories to one pool worker, the env histories are the slow ones
     envs = cases
